@@ -184,7 +184,7 @@ func (h *hist) regions() (rs []region, panicked bool) {
 }
 
 type obs struct {
-	s, l, v, st, ds, it string
+	s, l, v, st, ds, it, fl string
 	regs                []region
 	regPanic            bool
 	valid               bool
@@ -323,6 +323,30 @@ func (h *hist) observe() obs {
 			sb.WriteString(" P")
 		}
 		o.it = sb.String()
+		// free-list structure (hook): first-level bitmap, non-zero second-level bitmaps, non-empty lists in list order
+		if t, ok := h.md.(*metadata.TLSFBlockMetadata); ok {
+			lists, outer, inner := t.VerifFreeLists()
+			var fb strings.Builder
+			fmt.Fprintf(&fb, "FL %d |", outer)
+			for c, v := range inner {
+				if v != 0 {
+					fmt.Fprintf(&fb, " %d:%d", c, v)
+				}
+			}
+			fb.WriteString(" |")
+			for i, l := range lists {
+				if len(l) > 0 {
+					fmt.Fprintf(&fb, " %d:", i)
+					for j, off := range l {
+						if j > 0 {
+							fb.WriteString(",")
+						}
+						fmt.Fprintf(&fb, "%d", off)
+					}
+				}
+			}
+			o.fl = fb.String()
+		}
 	}
 	return o
 }
@@ -336,6 +360,9 @@ func (h *hist) emitObs(o obs) {
 	fmt.Fprintln(w, o.ds)
 	if o.it != "" {
 		fmt.Fprintln(w, o.it)
+	}
+	if o.fl != "" {
+		fmt.Fprintln(w, o.fl)
 	}
 }
 
